@@ -62,11 +62,28 @@ def rand_dep_recipe(rng, i, benign_head=False):
                      gen.TAG("script", {"k": "text", "s": "var a = 1 && 2;" + hs(rng, 2)})]
     elif h < 0.5:
         r["head"] = "<meta name=\"raw\">" + hs(rng)
+    elif h < 0.56:
+        r["head"] = [gen.TAG("title", {"k": "text", "s": "T"}), {"k": "dep", "name": "nested-in-head", "version": "1.0", "script": [{"src": "n.js"}]}]
     return r
 
 
 def serialise(dep, indent):
-    return dep.serialize_to_script_json(indent=indent).get_html_string()
+    a = dep.serialize_to_script_json(indent=indent).get_html_string()
+    import htmltools as _h
+
+    old = _h.html_dependency_render_mode
+    _h.html_dependency_render_mode = "json"
+    try:
+        b = dep.serialize_to_script_json(indent=indent).get_html_string()
+    finally:
+        _h.html_dependency_render_mode = old
+    if a != b:
+        raise ModeDependent(a, b)
+    return a
+
+
+class ModeDependent(Exception):
+    pass
 
 
 def head_markup(dep):
@@ -93,7 +110,11 @@ def check_roundtrip(ctx, recipes, order, indent, pieces):
     deps = [gen.build(r) for r in recipes]
     sers = []
     for d, ind in zip(deps, indents):
-        s = serialise(d, ind)
+        try:
+            s = serialise(d, ind)
+        except ModeDependent:
+            ctx.violation("serialisation-depends-on-render-mode", "serialize_to_script_json() gives different text under html_dependency_render_mode='json'", wit)
+            return False
         sers.append(s)
         ctx.count("oracle.endtag_scan")
         if not (s.startswith(PREFIX) and s.endswith("</script>")):
@@ -225,6 +246,15 @@ def check_render(ctx, recipes, n_place, lib_prefix, include_version, rng):
     if [fields(x) for x in out["dependencies"]] != [fields(x) for x in deps]:
         ctx.violation("render-deps-differ", "render()['dependencies'] differ from the given dependencies", wit)
         return False
+    # the same document rendered again with other parameters gives what a fresh document gives with them
+    for lp2, iv2 in ((lib_prefix, not include_version), ("other/prefix", include_version), (lib_prefix, include_version)):
+        again = doc.render(lib_prefix=lp2, include_version=iv2)["html"]
+        fresh = ht.HTMLTextDocument(template, deps=[gen.build(r) for r in recipes], deps_replace_pattern=PLACEHOLDER).render(lib_prefix=lp2, include_version=iv2)["html"]
+        ctx.count("oracle.rerender_other_parameters")
+        if again != fresh:
+            ctx.violation("render-remembers-earlier-parameters", "a second render(lib_prefix=%r, include_version=%r) of the same document differs from a fresh document's" % (lp2, iv2),
+                          dict(wit, again=again[:600], fresh=fresh[:600]))
+            return False
     return True
 
 
@@ -305,6 +335,16 @@ def run(ctx):
             ctx.guard(check_roundtrip, ctx, [r], [0], rng.choice([None, 0, 2]), ["<p>p0;</p>", "<p>p1;</p>"], witness={"deps": [r], "order": [0]})
             ctx.case((r, et, fieldpos), nontrivial=True)
             ctx.state("endtag_x_field", (et, fieldpos))
+    # characters whose case-folded / normalised form has another length, somewhere before an end-tag-like string
+    for j, ch in enumerate(["ß", "ﬁ", "İ", "ǰ", "ŉ", "\u1e9e", "\U0001f600", "é", "\u0130\u0130"]):
+        for et in ENDTAGS[:5]:
+            i += 1
+            if not ctx.mine(i):
+                continue
+            r = {"k": "dep", "name": "n" + ch * (1 + j % 3), "version": "1.0", "script": [{"src": ch + "a.js"}], "meta": [{"name": "m", "content": ch + "x" + et + ch}],
+                 "head": "<title>" + ch + "</title>" + et}
+            ctx.guard(check_roundtrip, ctx, [r], [0, 0], rng.choice([None, 2]), ["<p>" + ch + "</p>", "<p>p1;</p>", "<i>" + ch + "</i>"], witness={"deps": [r], "order": [0, 0]})
+            ctx.case((r, et, ch), nontrivial=True)
     ctx.sample({"dep": {"name": "n</SCRIPT>", "version": "1.0"}, "serialised": serialise(ht.HTMLDependency("n</SCRIPT>", "1.0"), None)})
     for _ in range(ctx.budget(1500, 1000000)):
         n = rng.randint(1, 4)
@@ -340,6 +380,9 @@ def run(ctx):
         recipes = [rand_dep_recipe(rng, k, benign_head=True) for k in range(n)]
         for r in recipes:
             r["name"] = re.sub(r"[^A-Za-z0-9_.-]", "", r["name"])
+            if rng.random() < 0.4:
+                r["source"] = {"subdir": "some/dir%d" % rng.randint(1, 3)}
+                r["script"] = [{"src": "f.js"}]
         n_place = rng.choice([0, 1, 1, 3])
         lp, iv = rng.choice(["lib", None, "a/b", ""]), rng.random() < 0.6
         ctx.guard(check_render, ctx, recipes, n_place, lp, iv, rng, witness={"deps": recipes, "placeholders": n_place, "lib_prefix": lp, "include_version": iv})
